@@ -3,7 +3,7 @@ use crate::{
     base::{BaseSlot, EntryContext, RuleCheckSlot, TokenResult},
     utils,
 };
-use lazy_static::lazy_static;
+use crate::vsync::lazy_static;
 use std::sync::Arc;
 
 const RULE_CHECK_SLOT_ORDER: u32 = 4000;
